@@ -215,3 +215,64 @@ Theorem C12_run_keys_monotone_valid : forall c thr1 thr2 g ns1 s1 ns2 s2,
     incl (map (skey (scfg_of c ns1)) (sh_stmts sh2)) (map (skey (scfg_of c ns1)) (sh_stmts sh1))) s1 s2.
 Proof. exact run_keys_monotone_valid. Qed.
 Print Assumptions C12_run_keys_monotone_valid.
+
+(** ** SHAPE-MAP runs ([Model.RunMap.run_shapes_map]).  The threshold reaches
+    the run only through [shex] ([C12_map_threshold_only_in_shex]); without
+    remove_empty_shapes raising it only removes keys, shape by shape
+    ([C12_map_keys_monotone], binary64 for class sizes below 2^53;
+    [_exact] for rationals, no bound).  With remove_empty_shapes the statement
+    is FALSE on shape-map runs ([C12_remove_key_run_refuted], finding C12-F2):
+    the model-level refutation [C12_remove_key_refuted] made real -- the pinned
+    input shows it on the real Shaper. *)
+From Shexer Require Import Spec.Counts Lib.Dict Model.RunMap Proofs.RunMapProofs Proofs.RunMapWitness.
+From Shexer Require Model.Selectors.
+
+Theorem C12_map_threshold_only_in_shex : forall fa c orc sp thr g ns shapes,
+  run_shapes_map fa c orc sp thr g = inl (ns, shapes) ->
+  exists P C, shex fa (scfg_map c sp ns) thr P C = inl shapes /\
+              forall thr', run_shapes_map fa c orc sp thr' g =
+                           match shex fa (scfg_map c sp ns) thr' P C with
+                           | inl s => inl (ns, s) | inr e => inr (MERun (rerr_of_s e)) end.
+Proof. exact map_threshold_only_in_shex. Qed.
+Print Assumptions C12_map_threshold_only_in_shex.
+
+Theorem C12_map_keys_monotone : forall c orc sp thr1 thr2 g ns1 s1 ns2 s2,
+  r_remove_empty c = false -> wf_frac thr1 -> wf_frac thr2 -> fle BAlg thr1 thr2 = true ->
+  (forall I cls, Selectors.run orc sp g = Selectors.OOk I -> (class_count I cls < 2 ^ 53)%N) ->
+  run_shapes_map BAlg c orc sp thr1 g = inl (ns1, s1) -> run_shapes_map BAlg c orc sp thr2 g = inl (ns2, s2) ->
+  ns1 = ns2 /\ Forall2 (keys_shrink_m (scfg_map c sp ns1)) s1 s2.
+Proof. exact map_keys_monotone_B. Qed.
+Print Assumptions C12_map_keys_monotone.
+
+Theorem C12_map_keys_monotone_exact : forall c orc sp thr1 thr2 g ns1 s1 ns2 s2,
+  r_remove_empty c = false -> wf_frac thr1 -> wf_frac thr2 -> fle QAlg thr1 thr2 = true ->
+  run_shapes_map QAlg c orc sp thr1 g = inl (ns1, s1) -> run_shapes_map QAlg c orc sp thr2 g = inl (ns2, s2) ->
+  ns1 = ns2 /\ Forall2 (keys_shrink_m (scfg_map c sp ns1)) s1 s2.
+Proof. exact map_keys_monotone_Q. Qed.
+Print Assumptions C12_map_keys_monotone_exact.
+
+(** non-vacuity: remove_empty_shapes off, 1/3 <= 1/2 on the pinned run: the key (ex:p, non-literal) at both *)
+Example C12_map_nonvacuous :
+  fle BAlg (b_ratio 1 3) (b_ratio 1 2) = true /\
+  map_keys (with_remove false (with_kls false base_rcfg)) (b_ratio 1 3) =
+    Some [(lab_S, [(false, ex "name", VLit c_STRING_TYPE); (false, ex "p", VNonLit)]); (lab_T, [])] /\
+  map_keys (with_remove false (with_kls false base_rcfg)) (b_ratio 1 2) =
+    Some [(lab_S, [(false, ex "name", VLit c_STRING_TYPE); (false, ex "p", VNonLit)]); (lab_T, [])].
+Proof. repeat split; vm_compute; reflexivity. Qed.
+
+(** C12-F2 on the run: remove_empty_shapes on (the default), thresholds 1/3 <= 1/2:
+    the key (ex:p, non-literal) of shape S is present at 1/2 and absent at 1/3 *)
+Lemma C12_remove_key_run_refuted :
+  exists c orc sp g thr1 thr2 ns1 s1 ns2 s2 key,
+    r_remove_empty c = true /\ fle BAlg thr1 thr2 = true /\
+    run_shapes_map BAlg c orc sp thr1 g = inl (ns1, s1) /\ run_shapes_map BAlg c orc sp thr2 g = inl (ns2, s2) /\
+    (exists sh2, In sh2 s2 /\ In key (map (skey (scfg_map c sp ns2)) (sh_stmts sh2))) /\
+    (forall sh1, In sh1 s1 -> ~ In key (map (skey (scfg_map c sp ns1)) (sh_stmts sh1))).
+Proof.
+  exists (with_kls false base_rcfg), m_orc, m_spec, m_graph, (b_ratio 1 3), (b_ratio 1 2).
+  eexists. eexists. eexists. eexists. exists (false, ex "p", VNonLit).
+  split; [reflexivity|]. split; [vm_compute; reflexivity|].
+  split; [vm_compute; reflexivity|]. split; [vm_compute; reflexivity|]. split.
+  - eexists. split; [left; reflexivity|]. vm_compute. right. left. reflexivity.
+  - intros sh1 [<-|[]]. vm_compute. intros [H|[]]. discriminate H.
+Qed.
